@@ -33,7 +33,7 @@ def sh(cmd, cwd=None, env=None, timeout=1800):
 def run_demo(wt, demo_rel, src_dir):
     env = dict(os.environ, PYTHONPATH=str(wt), PYTHONDONTWRITEBYTECODE="1")
     env["PATH"] = "/venv/bin:" + env["PATH"]
-    demo = pathlib.Path(wt) / "_seed_demo" / demo_rel
+    demo = pathlib.Path(wt) / "_seed" / "S" / demo_rel
     if demo.name.startswith("test_"):
         cmd = f"/venv/bin/python -m pytest -q -p no:cacheprovider -x {demo}"
     else:
@@ -127,9 +127,9 @@ def main():
     try:
         rc, out = sh(f"git -C /repo worktree add --detach {wt} HEAD -q")
         assert rc == 0, out
-        shutil.copytree(src, wt / "_seed_demo")
+        shutil.copytree(src, wt / "_seed" / "S")
         # demos written by the sub-agents refer to their own worktree path; retarget to this one
-        for p in (wt / "_seed_demo").rglob("*"):
+        for p in (wt / "_seed" / "S").rglob("*"):
             if p.is_file() and p.suffix in (".py", ".sh", ".md", ".txt"):
                 t = p.read_text()
                 import re
